@@ -8,7 +8,7 @@ from facts import short, strip_generics, show_chain, walk_chain, chain_calls
 PROPERTY = "C07"
 TITLE = "A program is built if and only if no error was reported"
 NEEDS = ("syn", "facts")
-TECHNIQUE = "static analysis: dominance on compile_file's MIR CFG (error gate before every code-generation call), def-use of the gate condition, struct-literal lint on diagnostics, match-table rules on the unsafe-to-compile walk"
+TECHNIQUE = "static analysis: dominance on compile_file's MIR CFG (error gate before every code-generation call), def-use of the gate condition, struct-literal lint on diagnostics, match-table rules on the unsafe-to-compile walk; acceptance-vs-construction agreement by abstract evaluation of both sides from source (operators, nested == / !=, casts, common type of a diverging branch, const classification)"
 EXPLANATION = (
     "Engine A on capy::compile_file: every call into codegen (compile_obj, compile_jit, the post-check eval_comptime_blocks, "
     "link_to_exec) is dominated by the false edge of the branch on `has_errors` whose true side only reaches exit(1); "
